@@ -427,3 +427,21 @@ def check_filled_items_fresh(ctx, rule: str, prefixes: tuple[str, ...] = ("glota
                    "set it was filled from (the optimiser works on a copy), so the matrix side and the clp side of an evaluation disagree",
                    construct=short(st, 110))
     ctx.sites(rule, "fill_item calls in the evaluation code", n, minimum)
+
+
+def stmts_when(fi: FunctionInfo, repo: Repo, pred) -> list[ast.stmt]:
+    """Simple statements of ``fi`` that are executed only when a test accepted by ``pred(expr)`` is true
+    (nested ``if``, ``elif``, or guard form ``if not <test>: leave`` before the statement)."""
+    fl = flow(fi, repo)
+
+    def cond_ok(test, polarity, at):
+        e, pos = strip_not(test)
+        return pred(e) and (polarity == pos)
+
+    out = []
+    for n in walk_no_nested(fi.node):
+        if isinstance(n, ast.stmt) and not isinstance(n, (ast.If, ast.For, ast.While, ast.With, ast.Try, ast.FunctionDef, ast.ClassDef)):
+            if guarded_by(fl, n, cond_ok, fi.node) is not None:
+                out.append(n)
+    out.sort(key=lambda s: (s.lineno, s.col_offset))
+    return out
